@@ -81,19 +81,22 @@ def who_may_defer(ck, C, b):
             v = T.agg_variant(body, cs.args[1]) if len(cs.args) > 1 else set()
             ck.verdict(v == {(PA, want)}, C, "T6-provenance", body, "deferred-value", "%s defers PostAction::%s" % (q, want), "%s defers %s instead of %s" % (q, sorted(v), want), site=body.where(cs.bb))
             ok = False
+            from props import common as _cm
+
+            bv = _cm.busy_value(f, meth) or ("const", 0)
             for d in dcs:
-                for s2, mode in T.call_result_switches(body, d.bb):
-                    if mode != "bool":
-                        continue
-                    if T.reachable_only_via(body, cs.bb, T.edges_of_value(body, s2, False)):
-                        ok = True
+                ed = _cm.value_test_edges(body, d.bb, bv)
+                if ed and T.reachable_only_via(body, cs.bb, ed):
+                    ok = True
             ck.verdict(ok, C, "T4-guarded-by", body, "defer-only-if:%s-answered-false" % meth, "the request is deferred only when the dispatcher answered false (it is being dispatched)", "the deferred request is stored although the dispatcher did not answer false (it would be applied to whatever source is dispatched next)", site=body.where(cs.bb))
         # and the false answer must lead to the store (the request may not be dropped)
         for d in dcs:
-            for s2, mode in T.call_result_switches(body, d.bb):
-                if mode != "bool":
-                    continue
-                starts = [t for _, t in T.edges_of_value(body, s2, False)]
+            from props import common as _cm
+
+            ed = _cm.value_test_edges(body, d.bb, _cm.busy_value(f, meth) or ("const", 0))
+            if ed:
+                s2 = ed[0][0]
+                starts = [t for _, t in ed]
                 bad = T.t2_all_exits(body, starts, [cs.bb for cs in writers[q] if not isinstance(cs, tuple)])
                 ck.verdict(bad is None, C, "T2-all-exits", body, "false-answer-must-defer", "every path from the false answer stores the deferred request", "the false answer of the dispatcher can return without storing the deferred request (a self-directed %s would be lost)" % q.split("::")[-1], site=body.where(d.bb), path=path_descr(body, bad) if bad else None)
 
